@@ -155,7 +155,9 @@ bool TemporalMetricStorage::buildMetrics(CollectorHandle *collector,
             auto agg = merged_metrics->GetForMerge(attributes);
             if (agg)
             {
-              merged_metrics->Set(attributes, agg->Merge(aggregation));
+              // previous.Merge(current): on equal timestamps a last-value merge keeps its
+              // argument, which must be the more recent sample.
+              merged_metrics->Set(attributes, aggregation.Merge(*agg));
             }
             else
             {
